@@ -405,7 +405,11 @@ impl<'a> Parser<'a> {
         // the global query_source.
         self.query_source += &query_source;
         self.query_source += "\n";
-        let query = Query::new(language, &query_source).map_err(|mut e| {
+        // tree-sitter panics while building the error for an unknown name at offset 0 of the query
+        // source, so the pattern is compiled behind a newline, which is taken off the error again
+        let query = Query::new(language, &format!("\n{}", query_source)).map_err(|mut e| {
+            e.row = e.row.saturating_sub(1);
+            e.offset = e.offset.saturating_sub(1);
             // the column of the first row of a query pattern must be shifted by the whitespace
             // that was already consumed
             if e.row == 0 {
